@@ -13,6 +13,8 @@ late failure report of a connection attempt abandoned by a reset parked it in ER
   * the time bound is the sum of bounds proved elsewhere (C06, C15, C01), as a numeral from the generated timing tables.
 -/
 import GeckoModel.Model.Recovery
+import GeckoModel.Model.Coop
+import GeckoModel.Generated.Skeletons
 
 namespace GeckoModel.C09
 open GeckoModel.Recovery GeckoModel.Generated
@@ -130,6 +132,14 @@ theorem abandoned_attempt_is_ignored : ∀ s ∈ allR, s.spaAlive = false → st
 the retry-exceeded state, an incoherent record that is stuck (only a ping of a live spa leaves it) -/
 example : let s : R := { (resetR init) with st := stateOnRetryExceeded }
     Coherent s = false ∧ Stuck s = true ∧ connected (run s healthySeq) = false := by decide +kernel
+
+/-- **reporting an error never silences the spa's ping loop**: among all coroutines of the source tree (regenerated skeletons) the
+only one that closes the connection's protocol is `GeckoAsyncSpa.disconnect` - so `spaAlive` (a spa object whose ping loop runs)
+stays true in every error state until a reset, which is what lets an answered ping leave ERROR_RF_FAULT / ERROR_PING_MISSED /
+ERROR_NEEDS_ATTENTION (`pingResetStates`); in particular the RF-error handler only counts and reports -/
+theorem only_disconnect_closes_the_protocol :
+    (Skeletons.all.filter fun p => (Coop.actions .call p.2).contains "self._protocol.disconnect").map (·.1) =
+      ["async_spa.py:GeckoAsyncSpa.disconnect"] := by decide +kernel
 
 /-- **an unreachable spa is reported**: from CONNECTED, a ping that stays unanswered beyond the not-responding timeout
 takes the manager out of CONNECTED -/
